@@ -33,8 +33,8 @@ const PER_TYPE_SIZE: u64 = 38 * 41 * 2;
 
 fn parts(t: Tier) -> Vec<Part> {
     let (a, b) = match t {
-        Tier::Quick => (300_000, 200_000),
-        Tier::Thorough => (5_000_000, 3_000_000),
+        Tier::Quick => (900_000, 600_000),
+        Tier::Thorough => (10_000_000, 6_000_000),
     };
     vec![tape("wire", a, 900), tape("reveal", b, 400), enumerate("grid", GRID_SIZE), enumerate("pertype", PER_TYPE_SIZE)]
 }
